@@ -89,7 +89,12 @@ func (a *App) behave(ctx context.Context, call *CallState, rpc string, req proto
 	case "err-plain":
 		return nil, errors.New(b.Text)
 	case "err-sebuf":
-		return nil, &sebufhttp.Error{Message: b.Text}
+		e := &sebufhttp.Error{Message: b.Text}
+		if a.k.Plan.SharedMsgs {
+			// a sentinel error value returned by every failing call with this text
+			e = a.k.sharedMsg("err|"+rpc, []byte(b.Text), e).(*sebufhttp.Error)
+		}
+		return nil, e
 	case "err-validation":
 		ve := &sebufhttp.ValidationError{}
 		for _, f := range b.Fields {
